@@ -205,8 +205,8 @@ def gen_set(ctx: Ctx, in_range: bool) -> List[str]:
         # disjoint by construction: increasing code points (then possibly shuffled)
         pool = sorted(
             ctx.rng.sample(
-                [9, 10, 45, 45, 48, 57, 65, 90, 91, 92, 93, 94, 94, 97, 98, 99, 122, 124, 255, 256, 0xD800, 0xDFFF, 0xFFFF, 0x10000]
-                + ([] if compl else [0x10001, 0x1F600, 0x10FFFF]),
+                [9, 10, 45, 45, 48, 57, 65, 90, 91, 92, 93, 94, 94, 97, 98, 99, 122, 124, 255, 256, 0xD800, 0xDFFF, 0xFFFF]
+                + ([] if compl else [0x10000, 0x10001, 0x1F600, 0x10FFFF]),
                 min(2 * n, 12),
             )
         )
